@@ -49,7 +49,10 @@ ASSUMPTIONS = [
 ]
 LEVEL_TEXT = (
     "Static who-may-push / path-predicate / reaching-definition rules over mbox.py and client.py: decides the "
-    "structural necessary conditions R1.1-R1.4 of sequence-number synchrony on all paths; the announced numbers "
+    "structural necessary conditions R1.1-R1.9 of sequence-number synchrony on all paths (one ordered notification "
+    "channel, the EXPUNGE gate before and after the admission wait, emission order, flush points and the atomic hand-over "
+    "of the queue, direct delivery only right after a flush, SELECT hygiene, EXISTS counts, fan-out over a copy of the "
+    "client table and shielded from other sessions' dead connections); the announced numbers "
     "themselves are runtime values and are not decided."
 )
 LEVEL_NOTE = (
